@@ -13,11 +13,13 @@ import (
 	"unsafe"
 
 	"github.com/massnetorg/mass-core/blockchain"
+	"github.com/massnetorg/mass-core/blockchain/state"
 	"github.com/massnetorg/mass-core/database"
 	"github.com/massnetorg/mass-core/database/ldb"
 	"github.com/massnetorg/mass-core/database/storage/ldbstorage"
 	"github.com/massnetorg/mass-core/massutil"
 	"github.com/massnetorg/mass-core/netsync"
+	"github.com/massnetorg/mass-core/trie/rawdb"
 	"github.com/massnetorg/mass-core/txscript"
 	"github.com/massnetorg/mass-core/wire"
 	"massnet.org/mass-wallet/config"
@@ -47,17 +49,23 @@ type Node struct {
 	sm        *netsync.SyncManager
 	pool      *blockchain.TxPool
 	salt      uint64
+	sdb       state.Database
 }
 
 func setUnexported(field reflect.Value, v interface{}) {
 	reflect.NewAt(field.Type(), unsafe.Pointer(field.UnsafeAddr())).Elem().Set(reflect.ValueOf(v))
 }
 
-func fabricateChain(height uint64, hash wire.Hash, listeners map[blockchain.Listener]struct{}, db database.Db) *blockchain.Blockchain {
+func fabricateChain(height uint64, hash wire.Hash, listeners map[blockchain.Listener]struct{}, db database.Db, hdr *wire.BlockHeader, sdb state.Database) *blockchain.Blockchain {
 	bc := &blockchain.Blockchain{}
 	tree := blockchain.NewBlockTree()
 	h := hash
 	node := &blockchain.BlockNode{Height: height, Hash: &h, InMainChain: true}
+	if hdr != nil {
+		// BestBlockNode().BindingState (GetNewBinding / GetPoolPkCoinbase behind the API's binding
+		// queries) reads the header of the best node
+		setUnexported(reflect.ValueOf(node).Elem().FieldByName("blockHeader"), hdr)
+	}
 	setUnexported(reflect.ValueOf(tree).Elem().FieldByName("bestNode"), node)
 	v := reflect.ValueOf(bc).Elem()
 	setUnexported(v.FieldByName("blockTree"), tree)
@@ -66,6 +74,11 @@ func fabricateChain(height uint64, hash wire.Hash, listeners map[blockchain.List
 		// GetTransactionInDB / GetHeaderByHash of the API handlers read the chain database
 		f := v.FieldByName("db")
 		reflect.NewAt(f.Type(), unsafe.Pointer(f.UnsafeAddr())).Elem().Set(reflect.ValueOf(&db).Elem())
+	}
+	if sdb != nil {
+		// binding-state database of the node (empty trie store): the API's binding queries open tries on it
+		f := v.FieldByName("stateBindingDb")
+		reflect.NewAt(f.Type(), unsafe.Pointer(f.UnsafeAddr())).Elem().Set(reflect.ValueOf(&sdb).Elem())
 	}
 	return bc
 }
@@ -94,7 +107,7 @@ func NewNode(dir string) (*Node, error) {
 	}
 	wrapped := WrapChainDB(cdb)
 	n := &Node{Dir: dir, CDB: cdb, DB: wrapped, Wrap: wrapped, All: map[wire.Hash]*Block{}, listeners: map[blockchain.Listener]struct{}{},
-		sm: fabricateSyncManager(), pool: blockchain.NewTxPool(nil, nil, nil)}
+		sm: fabricateSyncManager(), pool: blockchain.NewTxPool(nil, nil, nil), sdb: state.NewDatabase(rawdb.NewMemoryDatabase())}
 	gb := &Block{Msg: config.ChainParams.GenesisBlock, Hash: config.ChainParams.GenesisBlock.BlockHash(), Height: 0}
 	n.Genesis = gb
 	n.Best = []*Block{gb}
@@ -113,7 +126,8 @@ func (n *Node) SyncManager() *netsync.SyncManager  { return n.sm }
 
 func (n *Node) publishTip() {
 	t := n.Best[len(n.Best)-1]
-	n.tip.Store(fabricateChain(t.Height, t.Hash, n.listeners, n.DB))
+	hdr := t.Msg.Header
+	n.tip.Store(fabricateChain(t.Height, t.Hash, n.listeners, n.DB, &hdr, n.sdb))
 }
 
 func (n *Node) Tip() *Block {
